@@ -133,6 +133,30 @@ type caseIn struct {
 	// the mock member directly below the (single) responder taps the responder's retransmissions
 	Inject bool   `json:"inject,omitempty"`
 	Note   string `json:"note,omitempty"`
+	// teardown history: the lifecycle calls issued on the chain after the data path operations, in
+	// this order (0 UnbindLocalStream, 1 UnbindRemoteStream, 2 Close); empty (old replay files) =
+	// [0 1 2].  Any order and repeated Unbinds are legal; a history without a Close gets one appended.
+	Teardown []int `json:"td,omitempty"`
+}
+
+// the teardown history as it is executed
+func (in caseIn) teardown() []int {
+	td := append([]int{}, in.Teardown...)
+	if len(td) == 0 {
+		td = []int{0, 1, 2}
+	}
+	hasClose := false
+	for i, o := range td {
+		if o < 0 || o > 2 {
+			td[i] = 2
+		}
+		hasClose = hasClose || td[i] == 2
+	}
+	if !hasClose {
+		td = append(td, 2)
+	}
+
+	return td
 }
 
 // ---------------------------------------------------------------- packets
@@ -817,6 +841,7 @@ type result struct {
 	closeNil bool
 	is       [][2]int64
 	ctrs     [][3]int64
+	tds      []tdob // one per call of the teardown history
 	counts   [][3]int64
 	flags    [4]int64
 	aobs     []*aob
@@ -824,6 +849,13 @@ type result struct {
 	respIdx  int // flat index of the tapped responder (-1 none)
 	panicked string
 	buckets  []string
+}
+
+// one call of the teardown history and the (Close, UnbindLocalStream, UnbindRemoteStream) counters
+// of every instrumented member right after it
+type tdob struct {
+	op   int
+	ctrs [][3]int64
 }
 
 // aliasing observation of one object the harness handed to the chain (kind: 0 RTCP write batch,
@@ -1302,9 +1334,29 @@ func runCase(in caseIn) (res *result) { //nolint:cyclop,gocyclo,gocognit,maintid
 			mi++
 		}
 	}
-	chain.UnbindLocalStream(info)
-	chain.UnbindRemoteStream(&rinfo)
-	cerr := chain.Close()
+	// the teardown history, call by call; the Close error observed is the first Close's
+	var cerr error
+	closedOnce := false
+	for _, op := range in.teardown() {
+		switch op {
+		case 0:
+			chain.UnbindLocalStream(info)
+		case 1:
+			chain.UnbindRemoteStream(&rinfo)
+		default:
+			e := chain.Close()
+			if !closedOnce {
+				cerr, closedOnce = e, true
+			}
+		}
+		snap := tdob{op: op}
+		for _, m := range b.mocks {
+			m.mu.Lock()
+			snap.ctrs = append(snap.ctrs, [3]int64{int64(m.closed), int64(m.unbL), int64(m.unbR)})
+			m.mu.Unlock()
+		}
+		res.tds = append(res.tds, snap)
+	}
 	res.closeNil = cerr == nil
 	ids := []int{}
 	for id := range b.sentinels {
@@ -1589,10 +1641,14 @@ func (r *result) toCase() cq.Case {
 	for _, o := range r.iobs {
 		is2 = append(is2, cq.T(cq.Z(int64(r.respIdx)), cq.Z(int64(o.q)), cq.LZ(ints(o.calls))))
 	}
+	tds := []string{}
+	for _, t := range r.tds {
+		tds = append(tds, cq.T(cq.Z(int64(t.op)), tri(t.ctrs)))
+	}
 	term := cq.T(cfg, cq.L(ms), cq.L(r.tbl.terms), cq.L(wops), cq.L(rterm(in.Reads, r.rops)),
 		cq.L(rterm(in.CReads, r.crops)), cq.L(cwops), cq.L(cms),
 		cq.T(cq.B(r.closeNil), cq.L(is), tri(r.ctrs)), tri(r.counts), cq.LZ(r.flags[:]),
-		cq.L(as), cq.L(is2))
+		cq.L(as), cq.L(is2), cq.L(tds))
 	triv := len(flatten(in.Members)) == 0 || len(in.Writes)+len(in.Reads)+len(in.CReads)+len(in.CWrites) == 0
 
 	return cq.Case{Coq: term, JSON: in, Buckets: r.buckets, Trivial: triv}
